@@ -39,8 +39,76 @@ def record(obj):
     print(json.dumps(obj)[:600], flush=True)
 
 
+def in_worktree(tag, patch, pids, reverse_of=None):
+    """run checks against a scratch worktree of /repo's HEAD carrying `patch` (VERIF_REPO);
+    /repo itself is not touched, so several of these can run at once"""
+    wt = f"/dev/shm/pv/wt-{tag}-{os.getpid()}"
+    sh(f"git -C /repo worktree remove --force {wt}")
+    p = sh(f"git -C /repo worktree add --detach {wt} HEAD")
+    out = []
+    try:
+        if p.returncode:
+            return [{"error": "worktree: " + p.stderr[-200:]}]
+        sh(f"cp /repo/pydra/utils/_version.py {wt}/pydra/utils/_version.py")
+        if reverse_of:
+            d = sh(f"git -C /repo diff {reverse_of}~1 {reverse_of} -- pydra").stdout
+            p = subprocess.run(f"git -C {wt} apply -R", shell=True, input=d, capture_output=True, text=True)
+        else:
+            p = sh(f"git -C {wt} apply {patch}")
+        if p.returncode:
+            return [{"error": "cannot apply: " + p.stderr[-200:]}]
+        for pid in pids:
+            out.append(run_check(pid, extra_env={"VERIF_REPO": wt}))
+    finally:
+        sh(f"git -C /repo worktree remove --force {wt}")
+    return out
+
+
+def main_wt():
+    """run_seeded.py wt [-j N] seeded <ids...> | wt [-j N] reverts [<commit|prop>...]"""
+    from concurrent.futures import ThreadPoolExecutor
+
+    args = sys.argv[2:]
+    jobs = 1
+    if args[0] == "-j":
+        jobs = int(args[1])
+        args = args[2:]
+    mode, only = args[0], args[1:]
+    work = []
+    if mode == "reverts":
+        kf = json.load(open(f"{V}/known_findings.json"))
+        for line in kf["fixed"]:
+            pid, commit, what = re.match(r"fixed: property=(\w+) (\w+) (.*)", line).groups()
+            if only and commit not in only and pid not in only:
+                continue
+            manual = f"{V}/seeded/reverts/{commit}.diff"
+            base = {"kind": "revert", "commit": commit, "what": what[:120]}
+            if os.path.exists(manual):
+                work.append((commit, manual, [pid], None, base))
+            else:
+                work.append((commit, None, [pid], commit, base))
+    else:
+        ids = only or sorted(d for d in os.listdir(f"{V}/seeded") if os.path.isfile(f"{V}/seeded/{d}/meta.json"))
+        for sid in ids:
+            meta = json.load(open(f"{V}/seeded/{sid}/meta.json"))
+            work.append((sid, f"{V}/seeded/{sid}/patch.diff", [meta["property"]] + meta.get("also_check", []), None, {"kind": "seeded", "id": sid}))
+
+    def one(w):
+        tag, patch, pids, rev, base = w
+        for r in in_worktree(tag, patch, pids, rev):
+            r.update(base)
+            if "error" not in r:
+                r["caught"] = r["exit"] == 1
+            record(r)
+
+    with ThreadPoolExecutor(jobs) as ex:
+        list(ex.map(one, work))
+
+
 def main():
     mode = sys.argv[1]
+    if mode == "wt":
+        return main_wt()
     assert clean(), "/repo has uncommitted changes"
     if mode == "reverts":
         kf = json.load(open(f"{V}/known_findings.json"))
@@ -50,8 +118,12 @@ def main():
             pid, commit, what = m.groups()
             if only and commit not in only and pid not in only:
                 continue
-            d = sh(f"git -C /repo diff {commit}~1 {commit} -- pydra").stdout
-            p = subprocess.run("git -C /repo apply -R", shell=True, input=d, capture_output=True, text=True)
+            manual = f"{V}/seeded/reverts/{commit}.diff"  # `git revert --no-commit` output where -R conflicts
+            if os.path.exists(manual):
+                p = subprocess.run(f"git -C /repo apply {manual}", shell=True, capture_output=True, text=True)
+            else:
+                d = sh(f"git -C /repo diff {commit}~1 {commit} -- pydra").stdout
+                p = subprocess.run("git -C /repo apply -R", shell=True, input=d, capture_output=True, text=True)
             if p.returncode:
                 record({"kind": "revert", "commit": commit, "property": pid, "error": "cannot reverse-apply: " + p.stderr[-200:]})
                 sh("git -C /repo checkout -- .")
